@@ -17,13 +17,20 @@ class PathLimit(Exception):
 
 
 class Oracle(object):
-    def __init__(self):
+    def __init__(self, rng=None):
         self.prefix = []
         self.arity = []
         self.pos = 0
+        self.rng = rng          # when set: random decisions beyond the prefix (sampling instead of enumeration)
 
     def reset(self):
         self.pos = 0
+        self.run = getattr(self, "run", 0) + 1
+        self.wrng = random.Random(self.run)
+
+    def witness(self):
+        """concrete stand-in for an unknown amount; varies from path to path but is not a branching decision"""
+        return self.wrng.choice((0.0, 0.0, 52345.67, 250001.37, 1234.56))
 
     def choose(self, n):
         if n <= 1:
@@ -31,8 +38,8 @@ class Oracle(object):
         if self.pos < len(self.prefix):
             c = self.prefix[self.pos]
         else:
-            c = 0
-            self.prefix.append(0)
+            c = 0 if self.rng is None else self.rng.randrange(n)
+            self.prefix.append(c)
             self.arity.append(n)
         self.pos += 1
         if self.pos > 400:
@@ -61,6 +68,44 @@ def _w(x):
         return 0.0
 
 
+CONSTS = None    # when a set: every plain number that meets an unknown amount in arithmetic or comparison is added
+
+
+def _note(x):
+    if CONSTS is not None and isinstance(x, (int, float)) and not isinstance(x, (bool, TF, TI)):
+        CONSTS.add(float(x))
+
+
+class TF(float):
+    """what float(<unknown amount>) gives: a concrete witness that still reports the constants it meets"""
+
+    def _b(name):
+        f = getattr(float, name)
+
+        def op(self, other):
+            _note(other)
+            r = f(self, float(other) if isinstance(other, (int, float)) else other)
+            return TF(r) if isinstance(r, float) else r
+        return op
+    for _n in ("__add__", "__radd__", "__sub__", "__rsub__", "__mul__", "__rmul__", "__truediv__", "__rtruediv__"):
+        locals()[_n] = _b(_n)
+
+    def _c(name):
+        f = getattr(float, name)
+
+        def op(self, other):
+            _note(other)
+            return f(self, other)
+        return op
+    for _n in ("__lt__", "__le__", "__gt__", "__ge__", "__eq__", "__ne__"):
+        locals()[_n] = _c(_n)
+    __hash__ = float.__hash__
+
+
+class TI(int):
+    """what int(<unknown amount>) gives (a witness, never reported as a program constant)"""
+
+
 BUDGET = 48     # oracle decisions per path spent on amount comparisons; afterwards witnesses decide
 
 
@@ -72,10 +117,11 @@ class TopNum(object):
 
     def __init__(self, o, w=None):
         self.o = o
-        self.w = (0.0, 52345.67, 250000.0)[o.choose(3)] if w is None else w
+        self.w = o.witness() if w is None else w
 
     def _bin(f):
         def op(self, other):
+            _note(other)
             try:
                 return TopNum(self.o, f(self.w, _w(other)))
             except (ZeroDivisionError, OverflowError, ValueError):
@@ -84,6 +130,7 @@ class TopNum(object):
 
     def _rbin(f):
         def op(self, other):
+            _note(other)
             try:
                 return TopNum(self.o, f(_w(other), self.w))
             except (ZeroDivisionError, OverflowError, ValueError):
@@ -120,6 +167,7 @@ class TopNum(object):
 
     def _cmp(f):
         def op(self, other):
+            _note(other)
             if self.o.pos >= BUDGET:
                 return f(self.w, _w(other))
             return self.o.choose(2) == 1
@@ -134,10 +182,10 @@ class TopNum(object):
         return self.o.choose(2) == 1
 
     def __float__(self):
-        return float(self.w)
+        return TF(self.w)
 
     def __int__(self):
-        return int(self.w)
+        return TI(int(self.w))
 
     def __index__(self):
         return (0, 1, 2)[self.o.choose(3)]
@@ -187,6 +235,36 @@ class Catalogue(object):
         return self.cache[full]
 
 
+def _patch_threshold():
+    """Form.threshold() results count as constants used by the line that looks them up"""
+    from habutax.form import Form
+    if getattr(Form.threshold, "_hv", False):
+        return
+    orig = Form.threshold
+
+    def threshold(self, name, requested_key=None):
+        r = orig(self, name, requested_key=requested_key)
+        _note(r)
+        return r
+    threshold._hv = True
+    Form.threshold = threshold
+
+
+def _patch_float(year):
+    """float(<unknown amount>) inside the form modules yields a TF witness (the builtin would strip the subclass)"""
+    import builtins
+    import sys
+
+    def hv_float(x=0.0):
+        if isinstance(x, TopNum):
+            return TF(x.w)
+        return builtins.float(x)
+    prefix = "habutax.forms.ty%d" % year
+    for name, mod in list(sys.modules.items()):
+        if name.startswith(prefix) and mod is not None:
+            mod.__dict__["float"] = hv_float
+
+
 class MockSolver(object):
     def __init__(self, cat, log):
         self.cat, self.log = cat, log
@@ -205,9 +283,10 @@ class MockSolver(object):
 
 
 class Accessor(object):
-    def __init__(self, kind, form, cat, solver, oracle, log, memo, decisions):
+    def __init__(self, kind, form, cat, solver, oracle, log, memo, decisions, pin=None):
         self.kind, self.form, self.cat, self.solver = kind, form, cat, solver
         self.o, self.log, self.memo, self.dec = oracle, log, memo, decisions
+        self.pin = pin or {}
 
     def __getitem__(self, key):
         if not isinstance(key, str):
@@ -218,6 +297,11 @@ class Accessor(object):
         mk = (self.kind, full)
         if mk in self.memo:
             return self.memo[mk]
+        if self.kind == "in" and full in self.pin:
+            val = self.pin[full]
+            self.dec[full] = str(val)
+            self.memo[mk] = val
+            return val
         val = self.make(full)
         self.memo[mk] = val
         return val
@@ -255,6 +339,8 @@ class Accessor(object):
                 self.dec[full] = v
                 return v
             if t == "IntegerInput":
+                if "dependents" in base:
+                    return (0, 1, 2, 3, 4)[o.choose(5)]
                 return (0, 1, 2)[o.choose(3)]
             if t == "FloatInput":
                 return TopNum(o)
@@ -273,7 +359,7 @@ class Accessor(object):
         if t == "BooleanField":
             return (False, True)[o.choose(2)]
         if t == "IntegerField":
-            return (0, 1, 2)[o.choose(3)]
+            return TopNum(o, float((0, 1, 2)[o.choose(3)]))
         if t == "FloatField":
             return TopNum(o)
         if t == "EnumField":
@@ -285,11 +371,13 @@ class Accessor(object):
 ARTIFACT = (TypeError, ValueError, ZeroDivisionError, OverflowError, IndexError, PathLimit)
 
 
-def explore_line(cat, form, field, max_paths=3000, rng=None):
+def explore_line(cat, form, field, max_paths=3000, rng=None, pin=None, extra_random=0):
     """-> dict(refs=set, outcomes={kind: count}, errors=[(cls, msg, decisions)], paths=n, truncated=bool, gatepaths=[...])"""
     from habutax.fields import FieldNotImplemented
     oracle = Oracle()
+    global CONSTS
     refs, errors, outcomes = set(), [], {}
+    consts = {}       # filing status decision (or "-") -> set of plain numbers met by unknown amounts / returned / looked up
     gate_obs = []     # (decisions dict, outcome)
     n = 0
     truncated = False
@@ -301,11 +389,14 @@ def explore_line(cat, form, field, max_paths=3000, rng=None):
         log, memo, dec = set(), {}, {}
         solver = MockSolver(cat, log)
         form._solver = solver
-        mi = Accessor("in", form, cat, solver, oracle, log, memo, dec)
-        mv = Accessor("ln", form, cat, solver, oracle, log, memo, dec)
+        mi = Accessor("in", form, cat, solver, oracle, log, memo, dec, pin)
+        mv = Accessor("ln", form, cat, solver, oracle, log, memo, dec, pin)
+        CONSTS = set()
         try:
-            fn(mi, mv)
+            r = fn(mi, mv)
             out = "value"
+            if isinstance(r, (int, float)) and not isinstance(r, (bool, TF, TI)):
+                CONSTS.add(float(r))
         except FieldNotImplemented as e:
             out = "unimpl"
             if e.field_name != field.name():
@@ -319,20 +410,33 @@ def explore_line(cat, form, field, max_paths=3000, rng=None):
             errors.append((type(e).__name__, str(e)[:160], dict(dec)))
         outcomes[out] = outcomes.get(out, 0) + 1
         refs |= log
+        consts.setdefault(dec.get("1040.filing_status", "-"), set()).update(CONSTS)
+        CONSTS = None
         if len(gate_obs) < 20000:
             gate_obs.append((dec, out))
         n += 1
+        if oracle.rng is not None:
+            extra_random -= 1
+            if extra_random <= 0:
+                break
+            oracle = Oracle(oracle.rng)
+            continue
         if not oracle.advance():
             break
         if n >= max_paths:
             truncated = True
+            if extra_random > 0:
+                oracle = Oracle(rng or random.Random(n))
+                continue
             break
-    return {"refs": refs, "outcomes": outcomes, "errors": errors, "paths": n, "truncated": truncated, "gate_obs": gate_obs}
+    return {"refs": refs, "outcomes": outcomes, "errors": errors, "paths": n, "truncated": truncated, "gate_obs": gate_obs, "consts": consts}
 
 
 def explore_year(year, max_paths=3000):
     """-> list of per-line records for every form x allowed instance of the year"""
     cat = Catalogue(year)
+    _patch_threshold()
+    _patch_float(year)
     out = []
     for cls in cat.class_list:
         insts = list(getattr(cls, "valid_instances", [])) or [None]
